@@ -13,7 +13,7 @@ use refnoise::{patterns, state::overheads, CipherAlg, DhAlg, HashAlg, Proto};
 use serde_json::json;
 use snow::Builder;
 
-const CATS: [Cat; 6] = [Cat::ExpectedOkGotErr, Cat::OutBytes, Cat::OutLen, Cat::GetterFinished, Cat::GetterTurn, Cat::Panic];
+const CATS: [Cat; 5] = [Cat::ExpectedOkGotErr, Cat::OutBytes, Cat::OutLen, Cat::GetterFinished, Cat::Panic];
 
 /// A key pair produced by the library's own generate_keypair under a scripted RNG stream.
 fn lib_keypair(name: &str, seed: u64) -> Option<(Vec<u8>, Vec<u8>)> {
